@@ -140,6 +140,31 @@ impl<'tcx> Cx<'tcx> {
         if let ty::FnDef(d, _) = ty.kind() {
             let _ = write!(s, ",\"fn\":{}", esc(&tcx.def_path_str(*d)));
         }
+        // a reference to a scalar constant (`&BORDER` promoted for `a.cmp(&BORDER)`): the value behind the reference
+        if let ty::Ref(_, inner, _) = ty.kind() {
+            if inner.is_integral() || inner.is_bool() {
+                if let Ok(val) = c.const_.eval(tcx, typing_env, c.span) {
+                    if let mir::ConstValue::Scalar(mir::interpret::Scalar::Ptr(p, _)) = val {
+                        let (prov, off) = p.into_raw_parts();
+                        if let mir::interpret::GlobalAlloc::Memory(m) = tcx.global_alloc(prov.alloc_id()) {
+                            if let Ok(lay) = tcx.layout_of(typing_env.as_query_input(*inner)) {
+                                let sz = lay.size.bytes() as usize;
+                                let a = m.inner();
+                                let o = off.bytes() as usize;
+                                if sz > 0 && sz <= 16 && o + sz <= a.len() {
+                                    let bytes = a.inspect_with_uninit_and_ptr_outside_interpreter(o..o + sz);
+                                    let mut v: u128 = 0;
+                                    for (i, b) in bytes.iter().enumerate() {
+                                        v |= (*b as u128) << (8 * i);
+                                    }
+                                    let _ = write!(s, ",\"pv\":{}", esc(&v.to_string()));
+                                }
+                            }
+                        }
+                    }
+                }
+            }
+        }
         let txt: String = format!("{}", c.const_).chars().take(200).collect();
         let _ = write!(s, ",\"txt\":{}}}", esc(&txt));
         s
